@@ -29,12 +29,12 @@ def seg_score(orc, a, b):
 
 
 @core.safe_case
-def chain(ctx, pts, cfg, family):
+def chain(ctx, pts, cfg, family, kmax=None):
     n = len(pts)
     prev = None
     results = {}
     ok_chain = True
-    for k in range(0, n + 2):
+    for k in range(0, (n + 2) if kmax is None else min(n + 2, kmax + 1)):
         c = dict(cfg, k=k)
         res = rdpfam.run_case(ctx, 'rdp_fixed', pts, c, family)
         real = res and res.get('real')
@@ -124,6 +124,10 @@ def run(ctx):
     for _ in range(8 if quick else 120):
         pts, fam = rdpfam.bytecount_curve(rng)
         chain(ctx, pts, dict(dist='perpendicular', order=rng.choice(rdpfam.ORDERS), int_dtype=True), fam)
+    for _ in range(1 if quick else 12):
+        # a LONG curve (beyond 1024 / 4096 points), the first few dozen sizes: sub-sampled, chunked or capped distance scans pick another point
+        pts, fam = rdpfam.long_curve(rng)
+        chain(ctx, pts, rng.choice(cfgs), fam, kmax=rng.randrange(12, 30))
     for _ in range(150 if quick else 3000):
         u = rng.random()
         if u < 0.2:
